@@ -33,7 +33,20 @@ def diff_streams(rep, prop, cfg, tier, seed, binary, workdir, kf):
         ops_p, impl_p, model_p = (f'{workdir}/{fname}.{x}' for x in ('ops', 'impl', 'model'))
         if executors.get(label) == 'http2test':
             lib.exec_http2(cfg['_http2test'], ops_p, impl_p)
-        lib.run_driver(ops_p, model_p)
+        two = cfg.get('twophase_ops')
+        if two:
+            # two-phase operations: the driver predicts from the operation AND what the harness observed of the
+            # client's own bytes (e.g. the ClientHello a TLS library chose to send)
+            o_l = open(ops_p).read().split('\n')
+            i_l = open(impl_p).read().split('\n')
+            if o_l and o_l[-1] == '':
+                o_l.pop()
+            with open(ops_p + '.drv', 'w') as f:
+                for o, i in zip(o_l, i_l):
+                    f.write((o + ' @@ ' + i if o.split(' ', 1)[0] in two else o) + '\n')
+            lib.run_driver(ops_p + '.drv', model_p)
+        else:
+            lib.run_driver(ops_p, model_p)
         rd = lambda p: [l for l in open(p).read().split('\n')]
         ops, impl, model = rd(ops_p), rd(impl_p), rd(model_p)
         for l in (ops, impl, model):
@@ -58,6 +71,11 @@ def diff_streams(rep, prop, cfg, tier, seed, binary, workdir, kf):
             if m.startswith('okif '):
                 # conditional model answer: "IF the third-party validators accept the opaque bodies THEN this value"
                 m = i if i == 'err' else 'ok ' + m[5:]
+            if kind in cfg.get('twophase_ops', ()):
+                i, m = lib.reconcile_any(i, m)
+            proj = cfg.get('project')
+            if proj and kind in proj:
+                i, m = proj[kind](i), proj[kind](m)
             rep.case(o, nontrivial=cfg.get('nontrivial', lambda o, i: True)(o, i))
             if len(rep.samples) < 4 and kind in oracle_ops:
                 rep.sample(f'{o}  =>  impl: {i}')
@@ -129,11 +147,18 @@ def run_diff_property(prop, cfg, tier, seed, replay=None):
                 lib.exec_http2(cfg['_http2test'], opsf, f'{workdir}/replay.impl')
             else:
                 rc, out = lib.sh([binary, 'exec', 'replay', opsf, workdir])
-            lib.run_driver(f'{workdir}/replay.ops', f'{workdir}/replay.model')
             i = open(f'{workdir}/replay.impl').read().strip()
+            if r['op'].split(' ', 1)[0] in cfg.get('twophase_ops', set()):
+                open(f'{workdir}/replay.ops', 'w').write(r['op'] + ' @@ ' + i + '\n')
+            lib.run_driver(f'{workdir}/replay.ops', f'{workdir}/replay.model')
             m = lib.canon_model(open(f'{workdir}/replay.model').read().strip())
             if m.startswith('okif '):
                 m = i if i == 'err' else 'ok ' + m[5:]
+            kind = r['op'].split(' ', 1)[0]
+            if kind in cfg.get('twophase_ops', ()):
+                i, m = lib.reconcile_any(i, m)
+            if cfg.get('project') and kind in cfg['project']:
+                i, m = cfg['project'][kind](i), cfg['project'][kind](m)
             print('op      :', r['op'][:400])
             print('impl    :', i[:400])
             print('expected:', m[:400])
